@@ -30,3 +30,34 @@ prop(
     "DESIGN.md section 7 C16", uses_frames=True,
     explanation="shape-bounded deductive verification: obligations are discharged by z3 for all cell values and row labels at 0..3 rows; larger row counts and all list classes are covered by the bounded native side only",
 )
+
+
+# ---- properties whose checks are being built: provisional claims (refined as contracts land) -------------
+_PROVISIONAL = {
+    "C02": "StepMania reading",
+    "C03": "StepMania writing",
+    "C04": "BMS reading",
+    "C05": "BMS writing",
+    "C06": "Quaver file <-> chart",
+    "C07": "O2Jam reading",
+    "C08": "converters preserve content",
+    "C09": "read -> convert -> write",
+    "C11": "reseating tempo changes",
+    "C12": "stacking writes through",
+    "C13": "rate change",
+    "C14": "operations never modify their inputs",
+    "C15": "row order does not matter",
+    "C17": "full-LN generation",
+    "C18": "hitsound copy",
+    "C19": "dominant bpm / scroll speed / SV normalisation",
+    "C20": "pattern grouping and combinations",
+}
+for _pid, _what in _PROVISIONAL.items():
+    if _pid not in PROPS:
+        prop(
+            _pid, "exploration",
+            f"{_what}: the property's contract is checked at run time on the real functions over enumerated and seeded inputs against an independent oracle (bounded stand-in; nothing is counted as proved).",
+            "bounded stand-in only; oracle written from the property statement / public format description",
+            "run-time contract checking of the real code against an independent oracle (bounded stand-in of the contract-based family)",
+            f"DESIGN.md section 7 {_pid}",
+        )
